@@ -309,6 +309,7 @@ def run(repo: Repo, ctx) -> None:
                sample='clients[client_id].dbs[dbname]')
         _compiler_calls(repo, ctx, wf, f'multitenant_worker.{mname}')
     _multitenant_sender(repo, ctx)
+    _multitenant_commit(repo, ctx)
 
     # ---- R2b every component is considered on every path --------------------
     # (sent in full, or compared with its belief) before the callback /
@@ -616,6 +617,35 @@ def run(repo: Repo, ctx) -> None:
                '_last_pickled_state is not set to the state this call '
                'returned', f.loc, sample='_last_pickled_state = '
                                          'new_pickled_state')
+    # the belief about the worker's LAST_STATE follows every reply: the
+    # worker replaces LAST_STATE on each compile (with None outside a
+    # transaction), so the server must overwrite its belief unconditionally
+    for cls, meth in (('AbstractPool', 'compile'),
+                      ('AbstractPool', 'compile_in_tx'),
+                      ('MultiTenantPool', 'compile_in_tx')):
+        f = repo.find_method(f'{POOL}.{cls}', meth)
+        if f is None:
+            raise AnalysisError(f'{cls}.{meth} not found')
+        g = CFG(f.node)
+        sets = [n.id for n in g.nodes if n.kind == 'stmt' and isinstance(
+            n.ast, ast.Assign) and any(
+            norm(t) == 'worker._last_pickled_state' for t in n.ast.targets)]
+        reqs = [n.id for n in g.nodes if any(
+            isinstance(c.func, ast.Attribute) and c.func.attr == 'call'
+            and norm(c.func.value) == 'worker' for c in g.node_calls(n))]
+        if not reqs:
+            raise AnalysisError(f'C17.R5: request site of {cls}.{meth} not '
+                                f'found')
+        ok = bool(sets) and all(
+            g.always_after(r, sets, exits={g.exit}) for r in reqs)
+        ctx.ob('C17.R5', f'{cls}.{meth}:belief-follows-every-reply', ok,
+               f'{cls}.{meth} can return a reply without overwriting '
+               f'worker._last_pickled_state: the worker has already '
+               f'replaced (or cleared) its LAST_STATE, so a later '
+               f'compile_in_tx picks this worker by a stale belief and '
+               f'sends only the reuse marker', f.loc,
+               sample='reply -> _last_pickled_state := returned state, on '
+                      'every normal path')
     # worker side of the in-tx protocol
     for wmod, idx in ((WORKER, 0), (MTW, 1)):
         f = repo.func(f'{wmod}.compile_in_tx')
@@ -741,6 +771,44 @@ def _compiler_calls(repo: Repo, ctx, wf: FuncInfo, label: str) -> None:
                        f'{fn}({k.arg}={norm(k.value)})',
                        f'{wf.module.rel()}:{c.lineno}',
                        sample=f'{k.arg} <- {norm(k.value)}')
+
+
+def _multitenant_commit(repo: Repo, ctx) -> None:
+    """Every component the incremental message carries is committed into
+    the per-client state on every path."""
+    sy = repo.func(f'{MTW}.__sync__')
+    g = CFG(sy.node)
+    commits = [n.id for n in g.nodes if n.kind == 'stmt' and isinstance(
+        n.ast, ast.Assign) and norm(n.ast.targets[0]) == 'clients'
+        and 'clients.set(client_id' in norm(n.ast.value)]
+    stores = [n for n in g.nodes if n.kind == 'stmt' and isinstance(
+        n.ast, ast.Assign) and isinstance(n.ast.targets[0], ast.Subscript)
+        and norm(n.ast.targets[0].value) == 'updates']
+    if not commits or len(stores) < 3:
+        raise AnalysisError('C17.R2: incremental arm of multitenant '
+                            '__sync__ not recognised')
+    for st in stores:
+        key = norm(st.ast.targets[0].slice).strip("'\"")
+        # once a key is staged, `if updates:` cannot take its false edge
+        nonempty = [(t.id, 'F') for t in g.nodes if t.kind == 'test'
+                    and norm(t.ast) == 'updates']
+        ok = g.always_after(st.id, commits, exits={g.exit},
+                            avoid_edges=nonempty)
+        ctx.ob('C17.R2', f'multitenant_worker.__sync__:commits={key}', ok,
+               f'the incremental sync stages `{key}` but can finish without '
+               f'storing the updated client state: the pool has already '
+               f'recorded that this worker holds the new {key}, so every '
+               f'later request of the tenant compiles against the stale one',
+               sy.loc, sample='updates[k] = ... -> clients.set(client_id, '
+                              'client_schema._replace(**updates))')
+    # the replaced state is built from all staged updates
+    rep = [c for c in ast.walk(sy.node) if isinstance(c, ast.Call)
+           and norm(c.func) == 'client_schema._replace']
+    ok = len(rep) == 1 and any(k.arg is None and norm(k.value) == 'updates'
+                               for k in rep[0].keywords)
+    ctx.ob('C17.R2', 'multitenant_worker.__sync__:replace-uses-updates', ok,
+           'the committed client state is not built from the staged updates',
+           sy.loc, sample='_replace(**updates)')
 
 
 def _multitenant_sender(repo: Repo, ctx) -> None:
